@@ -312,6 +312,11 @@ def prove(prog, s, ctx):
             if sn['k'] == 'CXXMemberCallExpr' and sn['callee']['name'] == 'resize' and len(sn.get('args', [])) in (1, 2) and sn.get('obj') is not None and \
                     uncast(R.render(sn['obj'])) == C and P.equal(P.poly(f, sn['args'][0], R), P.add(ip, P.const(1))) and not shrinks_between(prog, f, C, sn['id'], s.nid):
                 return 'ok', 'G2', 'preceded by %s.resize(%s + 1)' % (C, I)
+        # G2d: the container was padded by `for (k = C.size(); k < N; ++k) C.push_back(..)` before, and the index is below N
+        pads = padded_to(prog, f, R, C, s.nid)
+        for l, op, r, _ in facts:
+            if l == I and op == '<' and r in pads:
+                return 'ok', 'G2', 'container was padded up to %s before; index below %s' % (r, r)
         # G2c: the container was resized to N on a dominating path and the index is a loop variable below N
         for l, op, r, _ in facts:
             if l == I and op == '<':
@@ -740,6 +745,23 @@ def nonempty_by_construction(prog, f, cont_render, at_node):
     return None
 
 
+def padded_to(prog, f, R, C, at_node):
+    """bounds N such that a preceding statement is `for (k = C.size(); k < N; ++k) C.push_back(...)` (nothing shrinks C afterwards)"""
+    out = []
+    for st in preceding_statements(f, at_node):
+        sn = f.nodes[st]
+        if sn['k'] != 'ForStmt':
+            continue
+        lf = normal_for(f, st)
+        if lf is None or lf['op'] != '<' or uncast(R.render(lf['start'])) != C + '.size':
+            continue
+        body = [f.nodes[x] for x in f.descendants(lf['body'])]
+        pb = [b for b in body if b['k'] == 'CXXMemberCallExpr' and b['callee']['name'] in ('push_back', 'emplace_back') and b.get('obj') is not None and uncast(R.render(b['obj'])) == C]
+        if len(pb) == 1 and not shrinks_between(prog, f, C, st, at_node):
+            out.append(uncast(R.render(lf['bound'])))
+    return out
+
+
 def overrun_evidence(prog, s, ctx):
     """positive evidence that an unproved site can be reached with an index outside the container:
     E1 the only bound on the index is `<= size` (or == size): the index can equal the size;
@@ -762,6 +784,12 @@ def overrun_evidence(prog, s, ctx):
         if (l == I and r == size and op in ('<=', '==')) or (l == size and r == I and op in ('>=', '==')):
             if not lt_proved(facts, I, size):
                 return 'the index is only bounded by %s %s %s: it can equal the size' % (l, op, r)
+    # E5: the container was padded up to one bound and is indexed below another
+    pads = padded_to(prog, f, R, C, s.nid)
+    if pads:
+        for l, op, r, _ in facts:
+            if l == I and op == '<' and r not in pads and not re.match(r'^\d+$', r):
+                return 'the container was padded up to %s but the index runs below %s: when that exceeds %s the subscript passes the end' % (pads[0], r, pads[0])
     if 'cv' in In:
         if not any(size in (l, r) for l, op, r, _ in facts):
             return 'element %s is read with no test of %s (a shorter container reaches it)' % (In['cv'], size)
